@@ -208,7 +208,7 @@ static void child (const Cfg * c, int wfd)
   int i, fds2 = 0, fds8 = 0, maps2 = 0, maps8 = 0, native = 0;
   memset (&R, 0, sizeof (R));
   v_install_handlers ();
-  alarm (30);
+  alarm (120);	/* wall-clock backstop only: generous, so that a loaded machine cannot turn it into an alarm */
   unsetenv ("ORC_CODE"); unsetenv ("ORC_DEBUG"); unsetenv ("ORC_TARGET"); unsetenv ("ORC_BACKEND");
   unsetenv ("XDG_RUNTIME_DIR"); unsetenv ("HOME"); unsetenv ("TMPDIR");
   for (i = 0; i < 3; i++) {
